@@ -17,6 +17,14 @@ SPEC = {
         # every mailbox (content by marker, UIDs, UIDNEXT) is compared with the state before it, once right after the
         # reply and once after the connector's echo.
         # Directed histories: corpus/C17/*.limits
+        # SIZE x LIMIT (limSizeHistories, after the corpus, whatever the seed): connector batches - one mailbox and two
+        # - and COPY / MOVE sets of 1, 2, H-1, H, H+1, L-1, L, L+1, L+2, 2L-1, 2L, 2L+1 messages (L = db.ChunkLimit, H = L/2,
+        # read from the db package) against a message-count limit and against a UID limit placed so that the operation
+        # crosses it in its FIRST, a MIDDLE or its LAST slice of L messages (limit = L, 2L, L+H, H, L-1, L+1; also with
+        # exactly a multiple of L of room left) or fits exactly; tiny messages (MODE tiny), a watching session has the
+        # target selected: after a refused operation count, UIDNEXT and content are what they were and the watcher
+        # was told nothing, after an accepted one the count is exact and the watcher was told that count.
+        # Stats sizes.*; sizes.classes-zero must be 0. Costs ~20 s (35 000 small messages).
         {"name": "c17limits", "quick_args": ["-n", "20", "-steps", "25"],
          "thorough_args": ["-n", "400", "-steps", "40"], "timeout": 2400},
     ],
@@ -24,6 +32,7 @@ SPEC = {
         "Lean 4.33.0 kernel; axioms limited to propext, Classical.choice, Quot.sound (audited per theorem)",
         "hand-written model GluonModel/Model/Limits.lean of package limits (int64 wrap-around arithmetic as written), tied to the real package by the `limits` correspondence dialect (differential testing on boundary values, not proof)",
         "the abstract check-then-insert machine of Model/Limits.lean (create with implicit parents, in-transaction adds, out-of-transaction check + insert per session) is a hand abstraction of State.Create / AddMessagesToMailbox / MoveMessagesFromMailbox / Mailbox.AppendRegular; which caller has which shape is read from the source by the facts translator harness/facts_limits.go (go/ast) and pinned by theorem limit_sites_today; which limits value and which quantity every Check* is applied to, which limits value the shared insertion helpers are handed, and that Mailbox.Copy / Mailbox.Move open one write transaction, by theorem limit_quantities_today (unknown shapes fail the decidable obligation)",
+        "facts translator harness/facts_c17tx.go (go/ast) -> Generated/Facts/UpdateTx.lean: per connector-update handler `user.apply*` of internal/backend/connector_updates.go the number of write transactions it opens (userDBWrite / userDBWriteResult / user.db.Write / db.ClientWriteType call sites in its body, and transitively in the `user` methods it calls) and whether one of them is opened from inside a for / range statement; pinned by theorem connector_update_one_transaction_today (applyMessagesCreated: one, not in a loop; no handler opens a transaction in a loop)",
         "the wire judge identifies a message across mailboxes by its RFC822.SIZE (the harness gives every message it creates a size of its own; the two messages of a RACE step share one and are flagged, COPY / MOVE sets for which that makes the overlap with the destination ambiguous are judged for invariant and clean refusal only)",
     ],
     "assumptions": [
@@ -31,8 +40,8 @@ SPEC = {
         "a limit-refused APPEND is answered NO but Mailbox.Append then stores the message in the recovery mailbox, which no limit check covers (observed on the real server: 4 refused APPENDs -> `Recovered Messages` holds 4 with message limit 2); outside the abstract machine",
         "Rename (missing superiors), renameInbox (new mailbox) and the recovery mailbox insert without any limit check (limit_sites_today item 4); they are outside the abstract machine's event alphabet",
         "int is 64 bits (the dialect refuses to run otherwise); counts and slice lengths are non-negative (check_sound_needs_sign shows the check is unsound for two negative arguments)",
-        "all-or-nothing of a refused multi-message operation is transaction rollback (C08 database model): in the model a refused step is the identity (replace_refused_unchanged), the source is tied to it by the one-write-transaction fact (limit_quantities_today item 5) and by the wire oracle, which compares every mailbox before and after every refused command",
+        "all-or-nothing of a refused multi-message operation is transaction rollback (C08 database model): in the model a refused step is the identity (replace_refused_unchanged, batch_all_or_nothing), the source is tied to it by the one-write-transaction facts (limit_quantities_today item 5 for COPY / MOVE, connector_update_one_transaction_today for connector updates of any length: one transaction, not opened in a loop) and by the wire oracle, which compares every mailbox before and after every refused command and runs operations longer than db.ChunkLimit against limits crossed in the first, a middle and the last slice; what a handler with one transaction per slice would do is addSlices (Model/Limits.lean), sliced_batch_partial_effect_witness / sliced_same_when_whole_fits say when that differs",
         "a COPY / MOVE answered NO has already been announced to the connector; the dummy connector's echo then carries it out piecemeal, and from then on the connector's idea of the mailboxes differs from gluon's (known finding connector-echo-after-refusal; echo effects after an accepted command are attributed to it only in histories with an earlier refused COPY / MOVE, otherwise they are reported as cause=connector-echo-after-accepted)",
     ],
-    "explanation": "Lean theorems: each Check* that passes implies the true (unwrapped) sum is within the maximum, and fitting operations pass; the limits invariant holds along every history under NoImplicitParents and ChecksInsideTx, with decide-checked witnesses that each hypothesis is needed; COPY / MOVE onto a destination that already holds k of the n messages (replaceTx k n) consumes n UIDs, keeps the limits, is accepted when it fits and is the identity when refused, with a witness that a UID check discounting the duplicates would be unsound; regenerated tables of all Check*/insert call sites state which callers satisfy the hypotheses today, that every check is made on the configured limits with the full length of the inserted list, and that COPY / MOVE are one write transaction. The limits package itself is differential-tested against the model on boundary values.",
+    "explanation": "Lean theorems: each Check* that passes implies the true (unwrapped) sum is within the maximum, and fitting operations pass; the limits invariant holds along every history under NoImplicitParents and ChecksInsideTx, with decide-checked witnesses that each hypothesis is needed; COPY / MOVE onto a destination that already holds k of the n messages (replaceTx k n) consumes n UIDs, keeps the limits, is accepted when it fits and is the identity when refused, with a witness that a UID check discounting the duplicates would be unsound; an in-transaction add of any length is all-or-nothing and is applied iff the WHOLE batch fits (batch_all_or_nothing, batch_applied_iff_fits), whereas one transaction per slice keeps the slices before the limit (witness) and differs from the single transaction only then (sliced_same_when_whole_fits); regenerated tables of all Check*/insert call sites state which callers satisfy the hypotheses today, that every check is made on the configured limits with the full length of the inserted list, that COPY / MOVE are one write transaction, and that every connector update - applyMessagesCreated in particular - is one write transaction that is not opened in a loop. The limits package itself is differential-tested against the model on boundary values.",
 }
